@@ -1,5 +1,5 @@
 """Sidecar contracts: inputparser/structure_transformer.py (C19): the omitted last probability of a choice."""
-import z3
+import z3, re
 from pyvc.core import *
 from pyvc.verify import contract
 from pyvc import template as T
@@ -155,6 +155,8 @@ def assign_simult(cx):
     cx.field('type', lambda ex, st, o: V('ref', TYPE(o.t))); cx.field('line', lambda ex, st, o: VI(0)); cx.field('column', lambda ex, st, o: VI(0))
     cx.call('get_unique_var', lambda ex, st, r, a, kw: V('ref', UNIQ(st['$i0'].t)), trusted='get_unique_var(name): a name used nowhere else (C20 bounded twin: counter)')
     cx.call('Token', lambda ex, st, r, a, kw: V('ref', TEXT(a[1].t.as_string())) if lit(a[1]) else a[1])
+    cx.isinstance(lambda ex, st, o, cls: z3.Function('token_isinstance_' + re.sub(r'\W', '_', cls), REF, B)(o.t) if o.kind == 'ref' else z3.BoolVal(False))
+    cx.call('sympify', lambda ex, st, r, a, kw: a[0]); cx.field('is_Number', lambda ex, st, o: VB(z3.Function('token_is_number', REF, B)(o.t)))
 
     def assign(ex, st, r, a, kw):
         sq = a[0]
